@@ -785,7 +785,7 @@ func (in *Interp) indexGet(n *rt.Node) (Value, *RErr) {
 	default:
 		return nil, in.err(n, "%s is not indexable", TypeName(cur))
 	}
-	for i, kn := range n.Kids {
+	for _, kn := range n.Kids {
 		k, err := in.operand(kn)
 		if err != nil {
 			return nil, err
@@ -798,9 +798,8 @@ func (in *Interp) indexGet(n *rt.Node) (Value, *RErr) {
 			}
 			v, has := c.M[ks]
 			if !has {
-				if i+1 < len(n.Kids) {
-					in.W.unspec("indexing through a missing map key")
-				}
+				// pinned: a read through a key that is not there is nil, like the read of that key itself;
+				// the index expressions behind it are not evaluated
 				return nil, nil
 			}
 			cur = v
